@@ -29,14 +29,15 @@ const ITEMS: [(&str, &[u8]); 14] = [
     ("jmp rbx", &[0xFF, 0xE3]),
 ];
 
-pub const VARIANTS: usize = 5;
+pub const VARIANTS: usize = 6;
 const ALIAS: u64 = 0x0dea_d000;
 
 fn vname(variant: usize) -> &'static str {
     match variant {
         0 | 1 => "A(all-registers-written)",
         2 | 3 => "B(only-rax-rbx-rcx-rsp-written)",
-        _ => "C(all-registers-hold-one-value)",
+        4 => "C(all-registers-hold-one-value)",
+        _ => "D(stack-and-strings-placed-by-init_stack_program_start)",
     }
 }
 
@@ -66,8 +67,10 @@ fn program(idx: usize, len: usize) -> (Vec<u8>, Vec<&'static str>) {
 /// 4: C (every general-purpose register holds the same unmapped address, RSP excepted)
 fn build(code: &[u8], variant: usize) -> Axecutor {
     let mut ax = Axecutor::new(code, BASE, BASE).unwrap();
-    ax.mem_init_zero(STK, 0x200).unwrap();
-    if variant < 2 || variant == 4 {
+    if variant != 5 {
+        ax.mem_init_zero(STK, 0x200).unwrap();
+    }
+    if variant < 2 || variant >= 4 {
         for k in 0..16 {
             ax.reg_write_64(crate::emu::GPR64[k], if variant == 4 { ALIAS } else { 0x100 + k as u64 }).unwrap();
             ax.reg_write_128(crate::emu::XMM[k], 0x200 + k as u128).unwrap();
@@ -78,7 +81,14 @@ fn build(code: &[u8], variant: usize) -> Axecutor {
         ax.reg_write_64(SR::RBX, u64::MAX).unwrap();
         ax.reg_write_64(SR::RCX, if variant % 2 == 0 { 0 } else { 5 }).unwrap();
     }
-    ax.reg_write_64(SR::RSP, STK + 0x100).unwrap();
+    if variant == 5 {
+        // every placement decision is the library's: three strings and the stack, each of
+        // which first collides with the code at 0x1000
+        ax.init_stack(0x40).unwrap();
+        ax.init_stack_program_start(0x100, vec!["prog".to_string(), "x".to_string()], vec!["A=b".to_string()]).unwrap();
+    } else {
+        ax.reg_write_64(SR::RSP, STK + 0x100).unwrap();
+    }
     ax.verif_set_rflags(0);
     ax.handle_syscalls(vec![Syscall::Brk, Syscall::Exit]).unwrap();
     ax.set_max_instructions(40);
@@ -133,7 +143,7 @@ fn run_one(code: &[u8], variant: usize) -> Digest {
         Err(p) => format!("Panic({}: {})", p.loc, p.msg),
     };
     let mut regs = crate::common::Fp::new();
-    let written: Vec<SR> = if variant < 2 || variant == 4 {
+    let written: Vec<SR> = if variant < 2 || variant >= 4 {
         crate::emu::GPR64.to_vec()
     } else {
         vec![SR::RAX, SR::RBX, SR::RCX, SR::RSP]
@@ -142,7 +152,7 @@ fn run_one(code: &[u8], variant: usize) -> Digest {
         regs.u64(ax.reg_read_64(r).unwrap());
     }
     regs.u64(crate::emu::rip(&ax));
-    if variant < 2 || variant == 4 {
+    if variant < 2 || variant >= 4 {
         for x in crate::emu::xmms(&ax) {
             regs.u64(x as u64);
             regs.u64((x >> 64) as u64);
@@ -304,7 +314,7 @@ pub fn run(tier: Tier) -> i32 {
     run.cov("traces_validated_against_impl", json!(cases * 4));
     run.cov("evaluations", json!(cases));
     run.cov("distinct_nontrivial", json!(distinct.len()));
-    run.cov("rule", json!("one case = (program of <= L items over 14 instructions/idioms incl. brk via the built-in handler, a division whose divisor may be zero, int3, a load, a store and a jump through RBX that fault when RBX is unmapped; variant A: every register written, variant B: only RAX RBX RCX RSP written, the alphabet never reads another register before writing it, variant C: every general-purpose register holds the same unmapped address); every case runs on 3 independently constructed machines in this process and once in a separately exec'd process; digests of registers, flags, every area, count, trace, call stack, their renderings, result and error text must be equal; distinct_nontrivial = distinct digests"));
+    run.cov("rule", json!("one case = (program of <= L items over 14 instructions/idioms incl. brk via the built-in handler, a division whose divisor may be zero, int3, a load, a store and a jump through RBX that fault when RBX is unmapped; variant A: every register written, variant B: only RAX RBX RCX RSP written, the alphabet never reads another register before writing it, variant C: every general-purpose register holds the same unmapped address, variant D: as A with the stack and the argument strings placed by init_stack and init_stack_program_start next to code at 0x1000); every case runs on 3 independently constructed machines in this process and once in a separately exec'd process; digests of registers, flags, every area, count, trace, call stack, their renderings, result and error text must be equal; distinct_nontrivial = distinct digests"));
     run.cov("exhaustive", json!(true));
     run.cov("program_max_length", json!(maxlen));
     run.cov("machines_per_case", json!(4));
